@@ -21,7 +21,7 @@ EXPLANATION = (
     "excepted), directory listings reach output only through sorted(), and no clock/random/id()/hash() call is "
     "reachable from a per-file scan; R07g the name of a temporary file never flows into a presentation sink, an "
     "error message or the scan context (the display name travels separately); R07h (=R13b) every rule's per-file state is reset on every path of starting_new_file, so a scan prints the same thing whatever was scanned before it in the process. "
-    "Not decided: that reported columns are in range, that reports are unique per (line, column, rule), and that a "
+    "R07i no run-time text is ever used as a str.format / % template (a brace in document text would raise inside the reporter or rewrite the line); R07j may-be-None dataflow (as R01d) over every rule and the plugin manager: no unguarded dereference of a parameter / local that may be None. Not decided: that reported columns are in range, that reports are unique per (line, column, rule), and that a "
     "rule's own code raises no exception — those depend on run-time values."
 )
 ASSUMPTIONS = [
@@ -508,6 +508,10 @@ def run(ctx: Context) -> None:
     r07e(ctx)
     r07g(ctx)
     r07i(ctx)
+    common.optional_dereferences(
+        ctx, "R07j", "no parameter or local of a rule or of the plugin manager that may be None is dereferenced unguarded on any path",
+        lambda rel: rel.startswith(("pymarkdown/plugins/", "pymarkdown/plugin_manager/")), 15,
+    )
     from sa.rules import c13
 
     # "two scans of the same input print the same thing", also inside one process: rule state is reset per file
